@@ -23,7 +23,7 @@ ASSUMPTIONS = [
     'includes are not placed inside muted or conditionally excluded regions (that interaction is C08/C17)',
     'zones predefined in the configuration are generated inside GLOBAL',
 ]
-BUDGET = {'quick': 3200, 'thorough': 100000}
+BUDGET = {'quick': 3200, 'thorough': 200000}
 LEVEL_TEXT = ('Exploration over generated zone layouts and whole programs; containment, concatenation of stretches, '
               'relative origins and include behaviour are run-level facts that need the real engine and an '
               'independent cursor model.')
